@@ -237,7 +237,7 @@ CONTRACTS = {
     },
     "tunable.__get__": {
         "receivers": ["tunable"], "params": {"instance": "Ref:TunOwner", "owner": "py"}, "defaults": {"owner": None}, "returns": "Ref:PyObj", "raises": "KeyError", "modifies": [],
-        "ensures": {"C09.G1 reading the attribute returns the current value of this instance's entry for this descriptor (class access returns the descriptor)":
+        "ensures": {"C09.G1 (also C02: a state's duration is read through its tunable) reading the attribute returns the current value of this instance's entry for this descriptor (class access returns the descriptor)":
                     "result is (instance._tunables[self].g_value if instance is not None else self)"},
         "ensures_raise": {"only for an object that was not set up": "instance is not None and not has(instance._tunables, self)"},
         "requires": {"entries exist": "implies(instance is not None, forall(t, Ref_tunable, implies(has(instance._tunables, t), instance._tunables[t] is not None)))"},
